@@ -376,6 +376,18 @@ func stmt(o op) string {
 		return fmt.Sprintf("{\n\tr := %s(%s, %d)\n\tdump(v, r)\n}\n", f, S, o.V)
 	case "ReturnComposite":
 		return fmt.Sprintf("%s = func() %s {\n\tr := %s\n\t%s = %d\n\treturn r\n}()\ndump(v)\n", D, goType[o.X], S, firstInt(o.S, o.X), o.V)
+	case "RecvAssign":
+		lhs := D
+		if o.J == 1 {
+			lhs = D + ", ok"
+		}
+		decl := ""
+		if o.J == 1 {
+			decl = "\tok := false\n\t_ = ok\n"
+		}
+		return fmt.Sprintf("{\n\tch := make(chan %s, 1)\n\tch <- %s\n%s\t%s = <-ch\n}\ndump(v)\n", goType[o.X], S, decl, lhs)
+	case "AppendAl":
+		return fmt.Sprintf("%s = append(%s[:%d], %s, %s)\ndump(v)\n", D, S, o.I, o.Ss[0].expr(), o.Ss[1].expr())
 	case "LoopDefine":
 		arr := "x"
 		if o.X == "S" {
